@@ -324,11 +324,14 @@ def run_bounds(case, ctx):
             ctx.label('entry:in-gap-between-intervals')
         cands = [min(max(xi, lo), hi) for lo, hi in ivs]
         if clip:
-            # lands exactly on an end of one of the intervals (the one it was clipped into)
-            ctx.expect(any(oi == c for c in cands), 'C16.bounds_clipped', lambda: dict(base(), ends=cands))
+            # lands exactly on an end of one of the intervals ("at an interval end when clipping")
+            all_ends = [e for lo, hi in ivs for e in (lo, hi)]
+            ctx.expect(any(oi == e for e in all_ends), 'C16.bounds_clipped', lambda: dict(base(), ends=cands))
             if nearest:
+                # ... and no end is nearer: the distance (in float arithmetic, as the code measures it) equals the least
+                # distance to any interval.  With ends like 0.0 and 3e-166 seen from -5.0 two ends are equally near.
                 dmin = min(abs(c - xi) for c in cands)
-                ctx.expect(any(oi == c and abs(c - xi) == dmin for c in cands), 'C16.bounds_nearest',
+                ctx.expect(any(oi == e for e in all_ends) and abs(oi - xi) == dmin, 'C16.bounds_nearest',
                            lambda: dict(base(), ends=cands, nearest_distance=dmin))
         else:
             ctx.expect(any(lo <= oi <= hi for lo, hi in ivs), 'C16.bounds_member', base)
